@@ -22,7 +22,7 @@ EXPLANATION = (
     "pass is_extended_id = can_id > 0x7FF and id/data/remote from their parameters; R5 the error/remote filter "
     "dominates notify in the listener; R6 scanner: append guarded by not-in, != 0 and service in SERVICES, SERVICES = "
     "predefined connection set, masks 0x780/0x7F and ids above 0x7FF excluded; R7 every library call of unsubscribe "
-    "names its callback; R9 structural assumptions shared by all properties: no class-level mutable object is mutated in place by instances, no method re-runs the constructor, logging statements cannot raise (typed eager formatting, divisions), no mutable default argument is kept or mutated, no new truth-value test of a None-able number."
+    "names its callback; R9 structural assumptions shared by all properties: no class-level mutable object is mutated in place by instances, no method re-runs the constructor, logging statements cannot raise (typed eager formatting, divisions), no mutable default argument is kept or mutated, no new truth-value test of a None-able number, a look-up memory the pinned tree does not have is keyed by all its inputs (arithmetic keys folded over a grid of addresses) and, on the serving side, emptied somewhere."
     ' R2 also: frame parameters re-bound only under `is None`, the scanner sees every frame on every path; R7 ignores zero-argument unsubscribe() of other classes.'
 )
 ASSUMPTIONS = [
